@@ -432,7 +432,7 @@ def impl_error_class(d):
     t = (d.get('panic') or '') + (d.get('err') or '')
     if not t:
         return None
-    if "not define symbol" in t:
+    if "not define symbol" in t or 'is the end of input and can not be used in a rule' in t:
         return 'undefined'
     if 'Check the nonterminal' in t:
         return 'norule'
